@@ -38,6 +38,11 @@ def shard_fn(sh):
                 sparse = TP.make_tree(t, ws, lang, rich='sparse')
                 st.count('trees_sparse_tokens')
                 TP.check_formats(st, [[ScoredTree(sparse, -1.0)]], lang, formats, dict(lang=lang, tree=repr(t), words=ws, engine='c07', tokens='sparse'))
+            if lang == 'en' and len(ws) >= 2 and len(set(ws)) == 1:
+                # a repeated word over bare tokens made by Token.of_word, the way the un-annotated pipeline makes them
+                bare = TP.make_tree(t, ws, lang, rich=False)
+                st.count('trees_bare_repeated_word')
+                TP.check_formats(st, [[ScoredTree(bare, -1.0)]], lang, formats, dict(lang=lang, tree=repr(t), words=ws, engine='c07', tokens='bare'))
     else:
         # batch shapes: sentences x n-best; n-best lists share the token sequence
         default = [c for c in cs if c[2] == [f'w{i}' for i in range(len(c[2]))] and c[0] != 'small']
@@ -90,7 +95,7 @@ def replay(rec):
     import ast
     st = core.Stats()
     t = ast.literal_eval(rec['tree'])
-    tree = TP.make_tree(t, rec['words'], rec['lang'], rich='sparse' if rec.get('tokens') == 'sparse' else True)
+    tree = TP.make_tree(t, rec['words'], rec['lang'], rich='sparse' if rec.get('tokens') == 'sparse' else (False if rec.get('tokens') == 'bare' else True))
     if rec.get('tokens') == 'sparse':
         TP.check_formats(core.Stats(), [[ScoredTree(TP.make_tree(t, rec['words'], rec['lang']), -1.0)]], rec['lang'], [rec['fmt']], dict(words=rec['words']))
     TP.check_formats(st, [[ScoredTree(tree, -1.0)]], rec['lang'], [rec['fmt']], dict(lang=rec['lang'], tree=rec['tree'], words=rec['words']))
